@@ -6,7 +6,9 @@ pub mod c06;
 pub mod c07;
 pub mod c08;
 pub mod c09;
+pub mod c10;
 pub mod c11;
+pub mod c12;
 pub mod c13;
 pub mod c14;
 pub mod c15;
@@ -16,6 +18,7 @@ pub mod c18;
 pub mod c19;
 pub mod c20;
 pub mod common;
+pub mod thr;
 pub mod c04;
 
 use crate::report::{Cfg, Report};
@@ -30,7 +33,9 @@ pub fn run(cfg: &Cfg, rep: &mut Report) -> bool {
     "C07" => c07::run(cfg, rep),
     "C08" => c08::run(cfg, rep),
     "C09" => c09::run(cfg, rep),
+    "C10" => c10::run(cfg, rep),
     "C11" => c11::run(cfg, rep),
+    "C12" => c12::run(cfg, rep),
     "C13" => c13::run(cfg, rep),
     "C14" => c14::run(cfg, rep),
     "C15" => c15::run(cfg, rep),
